@@ -39,6 +39,9 @@ use noodles_gff::{
 use noodles_gtf as gtf;
 use nv::{Case, CaseWriter, Obs, Outcome, Rng, errkind, guarded, hex, unhex};
 
+#[path = "../shared/c18_bedrec.rs"]
+mod c18_bedrec;
+
 // ---------------------------------------------------------------------------------------------
 // Case <-> values
 
@@ -615,13 +618,31 @@ fn run_gffdir(c: &Case) -> Obs {
         }
         Ok((bytes, bufs, lazy))
     }));
-    let o = Obs::ok("-", true);
+    // modelled observation (NV.Text.GffLine.gff_write_directive, gff_file_lines): the written line,
+    // then the lazy view of every line read back from it
+    let obs = match c18_bedrec::write_directive_line(&d) {
+        Outcome::Panicked(_) => "W=Panic".to_string(),
+        Outcome::Done(Err(e)) => format!("W=Err:{}", errkind(&e)),
+        Outcome::Done(Ok(bytes)) => {
+            let lines = match c18_bedrec::read_gff_lines(&bytes) {
+                Outcome::Panicked(_) => "Panic".to_string(),
+                Outcome::Done(g) => if g.lazy.is_empty() { "-".into() } else { g.lazy.join(";") },
+            };
+            format!("W={}|{}", hex(&bytes[..bytes.len().saturating_sub(1)]), lines)
+        }
+    };
+    let o = Obs::ok(obs.clone(), true);
+    // a key with a blank, a value with LF or a final CR is not something a `##key value` line can
+    // carry (the model's directive_ok; c18_gff_directive_refuted): observed, not judged
+    if key.iter().any(u8::is_ascii_whitespace) || payload.contains(&b'\n') || payload.ends_with(b"\r") {
+        return Obs { obs, verdict: "skip".into(), nontrivial: false };
+    }
     match res {
-        Outcome::Panicked(m) => Obs::fail("-", "gff3-directive-panic", m),
+        Outcome::Panicked(m) => Obs::fail(obs, "gff3-directive-panic", m),
         Outcome::Done(Err(e)) => {
             // typed key with a value of another type is rejected by the writer
             let _ = e;
-            Obs { obs: "-".into(), verdict: "skip".into(), nontrivial: false }
+            Obs { obs, verdict: "skip".into(), nontrivial: false }
         }
         Outcome::Done(Ok((bytes, bufs, lazy))) => {
             if bufs.len() != 1 || lazy.len() != 1 {
@@ -1172,7 +1193,15 @@ fn run_bedfile(c: &Case) -> Obs {
         Ok(x) => x,
     };
     let want: Vec<String> = rs.iter().map(bed_want).collect();
-    let o = Obs::ok("-", true);
+    // modelled observation: the file as written, then view and owned conversion of every line
+    // read into ONE reused Record<N> (NV.Text.BedRec.bed_write_file / bed_read_file)
+    let entries = c18_bedrec::read_text(n, &bytes, true, rs.len() + 2, false);
+    let shown: Vec<String> = entries.iter().filter(|e| e.res != "0").map(|e| if e.is_record() { format!("{}/{}", e.view, e.owned) } else { e.res.clone() }).collect();
+    let o = Obs::ok(format!("W={}|R={}", hex(&bytes), shown.join(";")), true);
+    let want_views: Vec<String> = rs.iter().map(|r| { let v = c18_bedrec::want_view(r); format!("{v}/{v}") }).collect();
+    if shown != want_views {
+        return o.with_verdict(Err(("bed-file-roundtrip".into(), format!("per-accessor views: want={want_views:?} got={shown:?}"))));
+    }
     let check = |got: &[(String, String)]| -> Option<String> {
         if got.len() != want.len() {
             return Some(format!("{} lines read, {} written", got.len(), want.len()));
@@ -1732,6 +1761,21 @@ fn generate(rng: &mut Rng, tier: &str, w: &mut CaseWriter) {
     for (k, kind, p) in dirs {
         w.push("gffdir", vec![hex(&k), kind.into(), hex(&p)]);
     }
+    // typed values under a key that is not theirs (writer: invalid directive), keys with blanks,
+    // values ending in CR, comments
+    for (k, kind, p) in [
+        (&b"foo"[..], "V", &b"3"[..]), (b"gff-version", "R", b"ctg 1 2"), (b"sequence-region", "G", b"a b"), (b"gff-version", "S", b"3 x"),
+        (b"a b", "N", b""), (b"a\tb", "S", b"v"), (b"k", "S", b"v\r"), (b"k", "S", b"\r"), (b"", "N", b""), (b"", "S", b"v"), (b"k\r", "N", b""),
+        (b"sequence-region", "R", b"chr 1 18446744073709551615"), (b"gff-version", "V", b"4294967295.0.4294967295"),
+    ] {
+        w.push("gffdir", vec![hex(k), kind.into(), hex(p)]);
+    }
+    for t in [&b""[..], b"note", b" note ", b"#x", b"a\tb", b"x\r", b"\r", b">seq", b"!"] {
+        w.push("gffcom", vec![hex(t)]);
+    }
+    for _ in 0..(10 * scale) {
+        w.push("gffcom", vec![hex(&gen_plain(rng, 0, 10, PLAIN))]);
+    }
     for _ in 0..(20 * scale) {
         let k = gen_plain(rng, 1, 10, b"abcdefghijklmnopqrstuvwxyz-#ABC09");
         if rng.chance(1, 4) {
@@ -1792,6 +1836,38 @@ fn generate(rng: &mut Rng, tier: &str, w: &mut CaseWriter) {
                 args.push(bed_args(&r)[1..].join(" "));
             }
             w.push("bedfile", args);
+        }
+    }
+    // arbitrary GFF3 text through read_line / Line::kind / line_bufs / record_bufs
+    {
+        let fixed: &[&[u8]] = &[
+            b"", b"\n", b"##gff-version 3\n", b"##gff-version 3", b"##gff-version\t3.1.26\r\n", b"###\n", b"##\n", b"## x\n",
+            b"#\n", b"#comment\n", b"# comment \r\n", b" \t\r\x0c\n#c\n", b"##FASTA\n>seq1\nACGT\n",
+            b"chr1\t.\tgene\t1\t2\t.\t+\t.\tID=a\n##FASTA\nchr1\t.\tgene\t1\t2\t.\t+\t.\tID=b\n",
+            b"chr1\t.\tgene\t1\t2\t.\t+\t.\tID=a\n#c\n\n##k v\nchr2\t.\tgene\t3\t4\t.\t-\t.\t.\r\n",
+            b"%23chr\t.\tgene\t1\t2\t.\t+\t.\t.\n", b"\t.\tgene\t1\t2\t.\t+\t.\t.\n", b"chr1\t.\tgene\n", b"##key\x0cvalue\n", b"##k\r\n", b"##k \r\n",
+        ];
+        for t in fixed {
+            w.push("gffline", vec![hex(t)]);
+        }
+        for _ in 0..(60 * scale) {
+            let t = c18_bedrec::gen_gffline(rng);
+            w.push("gffline", vec![hex(&t)]);
+        }
+    }
+    // arbitrary BED text through the reader (comments, CR, short lines, missing final LF, ...)
+    for n in 3..=6usize {
+        let fixed: &[&[u8]] = &[
+            b"", b"\n", b"#", b"#c\n#d", b"sq0\t0\t1\n", b"sq0\t0\t1", b"sq0\t0\t1\r\n", b"sq0\t0\t1\r\t\n",
+            b"sq0\t0\t1\t\n", b"sq0\t0\t1\t", b"sq0\t0\n", b"sq0\t0", b"sq0\n", b"a\t1\t2\tn\t3\t+\tx\ty\nb\t4\t5\tm\t6\t-\n",
+            b"a\t1\t2\tn\t3\t+\tx\ty\nb\t4\nc\t7\t8\tn\t9\t.\n", b"a\r\t1\t2\t\r\n", b"\r\n", b"a\t1\t2\tn\t3\t+\r",
+        ];
+        for t in fixed {
+            w.push("bedraw", vec![n.to_string(), hex(t), "6".into()]);
+        }
+        for _ in 0..(12 * scale) {
+            let t = c18_bedrec::gen_bedraw(rng, n);
+            w.push("bedraw", vec![n.to_string(), hex(&t), "8".into()]);
         }
     }
     for i in 0..(12 * scale) {
@@ -1857,6 +1933,9 @@ fn run(c: &Case) -> Obs {
         "bed" => run_bed(c, true),
         "bedt" => run_bed(c, false),
         "bedfile" => run_bedfile(c),
+        "bedraw" => c18_bedrec::run_bedraw(c),
+        "gffline" => c18_bedrec::run_gffline(c),
+        "gffcom" => c18_bedrec::run_gffcom(c),
         "gfffile" => run_gfffile(c),
         "gtffile" => run_gtffile(c),
         k => panic!("unknown kind {k}"),
